@@ -6,13 +6,18 @@
 //!   `l <m|r|c> <addr: 32 hex>`         AddrMap::lookup after TryFrom<Ipv6Addr>
 //!   `k <4:8 hex | 6:32 hex> <port>`    classification of a socket address
 //!   `t <threads> <keys> <ops>`         (oracle only) concurrent get/lookup stress on fresh maps
+//!   `G <m|r|c> <key> <cands>`          the same `get` on the socket's TYPED tables (`MappedAddrs`: EndpointId /
+//!                                      (RelayUrl, EndpointId) / CustomAddr keys, injectively indexed by <key>)
+//!   `x <4:8 hex | 6:32 hex> <port>`    the real `to_transport_addr` on those typed tables
 //! output: per op, joined by `;`:
 //!   g → `<addr 32 hex>:<port>:<candidates consumed>`    l → `some:<key>` | `none` | `notkind`
 //!   k → `ip|mixed|relay|custom`                          t → `ok`
+//!   G → as g                                             x → `ip|relay:<key>|custom:<key>|none`
 use std::collections::HashMap;
 use std::net::{IpAddr, Ipv4Addr, Ipv6Addr, SocketAddr};
 
 use iroh::verif_hooks::mapped_addrs::{self as hk, Kind, Maps};
+use iroh::verif_hooks::mapped_tables::{Table, TypedMaps};
 use vcommon::*;
 
 struct C18 {
@@ -53,6 +58,7 @@ impl C18 {
         // addresses produced so far are unknown to the generator (they depend on the
         // implementation), so lookups are generated from the candidate host bits.
         let mut used_hosts: Vec<(usize, u64)> = Vec::new();
+        let mut typed_hosts: Vec<(usize, u64)> = Vec::new();
         let small_hosts: Vec<u64> = (0..4).map(|_| rng.below(6)).collect();
         for _ in 0..nops {
             match rng.below(10) {
@@ -94,6 +100,35 @@ impl C18 {
                     ops.push(format!("l {} {}", kinds[map_kind], hex(&a)));
                 }
                 _ => ops.push(self.gen_classify(rng)),
+            }
+            // the socket's typed tables and the translation back to transport addresses
+            if rng.chance(1, 3) {
+                let ki = rng.usize_below(3);
+                let key = rng.below(7);
+                self.fresh += 1;
+                let host = if rng.chance(1, 2) { rng.below(6) } else { 0x4000_0000_0000_0000 | self.fresh };
+                self.fresh += 1;
+                typed_hosts.push((ki, host));
+                ops.push(format!("G {} {} {:016x},{:016x}", kinds[ki], key, host, 0x8000_0000_0000_0000u64 | self.fresh));
+            }
+            if rng.chance(1, 3) {
+                let port = *rng.pick(&[0u16, 12345, 443]);
+                if !typed_hosts.is_empty() && rng.chance(3, 4) {
+                    let (ki, host) = *rng.pick(&typed_hosts);
+                    let ak = if rng.chance(5, 6) { ki } else { rng.usize_below(3) };
+                    let mut a = [0u8; 16];
+                    a[..6].copy_from_slice(&PREFIX);
+                    a[6..8].copy_from_slice(&subnet(kind_of(kinds[ak])));
+                    a[8..].copy_from_slice(&host.to_be_bytes());
+                    if rng.chance(1, 10) {
+                        let i = rng.usize_below(16);
+                        a[i] ^= 1 << rng.below(8);
+                    }
+                    ops.push(format!("x 6:{} {port}", hex(&a)));
+                } else {
+                    let c = self.gen_classify(rng);
+                    ops.push(c.replacen("k ", "x ", 1));
+                }
             }
         }
         ops.join(";")
@@ -279,6 +314,9 @@ impl Prop for C18 {
 
     fn execute(&mut self, payload: &str) -> Exec {
         let maps = Maps::default();
+        let typed = TypedMaps::default();
+        let mut typed_addr: HashMap<(u8, u64), SocketAddr> = HashMap::new();
+        let mut typed_key: HashMap<SocketAddr, (u8, u64)> = HashMap::new();
         let mut outs: Vec<String> = Vec::new();
         let mut ex = Exec::default();
         // oracle state: what the property demands, tracked independently of the model
@@ -386,6 +424,59 @@ impl Prop for C18 {
                     if want != Kind::Ip {
                         nontrivial = true;
                     }
+                }
+                "G" => {
+                    let kind = kind_of(t[1]);
+                    let table = match kind { Kind::Mixed => Table::Endpoint, Kind::Relay => Table::Relay, _ => Table::Custom };
+                    let key: u64 = t[2].parse().unwrap();
+                    let cands: Vec<u64> = t[3].split(',').map(|h| u64::from_str_radix(h, 16).unwrap()).collect();
+                    hk::push_candidates(&cands);
+                    let a = typed.get(table, key);
+                    let consumed = cands.len() - hk::candidates_left();
+                    hk::clear_candidates();
+                    let IpAddr::V6(v6) = a.ip() else { panic!("mapped address is not v6") };
+                    outs.push(format!("{}:{}:{}", hex(&v6.octets()), a.port(), consumed));
+                    let kk = kind as u8;
+                    if let Some(prev) = typed_addr.get(&(kk, key)) {
+                        if *prev != a {
+                            ex.violation("unstable", format!("typed key {key} moved from {prev} to {a}"));
+                        }
+                    } else if let Some(other) = typed_key.get(&a) {
+                        ex.violation("shared", format!("{a} given to typed keys {other:?} and {key}"));
+                    }
+                    typed_addr.insert((kk, key), a);
+                    typed_key.insert(a, (kk, key));
+                    ex.tags.push("typed-get".into());
+                    nontrivial = true;
+                }
+                "x" => {
+                    let (fam, h) = t[1].split_once(':').unwrap();
+                    let b = unhex(h).unwrap();
+                    let port: u16 = t[2].parse().unwrap();
+                    let ip: IpAddr = if fam == "4" {
+                        IpAddr::V4(Ipv4Addr::new(b[0], b[1], b[2], b[3]))
+                    } else {
+                        let mut o = [0u8; 16];
+                        o.copy_from_slice(&b);
+                        IpAddr::V6(Ipv6Addr::from(o))
+                    };
+                    let sa = SocketAddr::new(ip, port);
+                    let got = typed.to_transport(sa);
+                    // oracle: what the property demands of the translation
+                    let canon = SocketAddr::new(ip, 12345);
+                    let want = match hk::classify(sa) {
+                        Kind::Ip => "ip".to_string(),
+                        Kind::Mixed => "none".to_string(),
+                        k => match typed_key.get(&canon) {
+                            Some((kk, key)) if *kk == k as u8 => format!("{}:{key}", if k == Kind::Relay { "relay" } else { "custom" }),
+                            _ => "none".to_string(),
+                        },
+                    };
+                    if got != want {
+                        ex.violation("translated-wrong", format!("to_transport_addr({sa}) = {got}, expected {want}"));
+                    }
+                    ex.tags.push(format!("translate-{}", got.split(':').next().unwrap_or("?")));
+                    outs.push(got);
                 }
                 "t" => {
                     let th: usize = t[1].parse().unwrap();
